@@ -75,4 +75,8 @@ def normalise (m : VMap) : Except Err VMap :=
   | some e => .error e
   | none => if m.any (·.1 == 0) then .ok m else .ok (m ++ [(0, "Unknown")])
 
+/-- `NumericData.format_length`: an array shorter than its association is completed with the no-data value
+    (NaN before encoding); the model of an array assignment is `(padTo nan n xs).map enc`. -/
+def padTo {α} (nan : α) (n : Nat) (xs : List α) : List α := xs ++ List.replicate (n - xs.length) nan
+
 end GeoVerif.Codec
